@@ -161,7 +161,7 @@ impl JsonTruthy for Json {
                     n.as_f64().is_some_and(|f| !f.is_nan())
                 } else {
                     // there is no inifity in json/serde_json
-                    n.as_f64().is_some_and(f64::is_normal)
+                    n.as_f64().is_some_and(|f| f != 0.0 && !f.is_nan())
                 }
             }
             Json::Null => false,
